@@ -289,7 +289,7 @@ def gen_gcirc(ctx):
         # quick tier: every separation with a generic pair, poles and equator alternate; thorough: all three
         classes = ('generic', 'polar', 'equator') if ctx.thorough else ('generic', ('polar', 'equator')[(si + ctx.seed) % 2])
         for cls in classes:
-            for _ in range(reps * (3 if sep <= 1e-8 else 1)):
+            for _ in range(reps * (2 if sep <= 1e-8 else 1)):
                 if cls == 'generic':
                     ra, dec = C.dyadic(rng, 0, 360, 8), C.dyadic(rng, -80, 80, 8)
                 elif cls == 'polar':
@@ -671,7 +671,7 @@ def check_munu(ctx, have_spec):
                       'images': [[r['lon1'][k], r['lat1'][k]], [r['lon1'][k + 1], r['lat1'][k + 1]]]}, True)
         if st in encl_stripes:
             cand = [k for k in range(n) if vin[k] is not None]
-            for k in cand[:1] + rng.sample(cand, min(len(cand), ctx.n(2, 10))):
+            for k in cand[:1] + rng.sample(cand, min(len(cand), ctx.n(1, 10))):
                 encl.append((kind, st, lon[k], lat[k], r['lon1'][k], r['lat1'][k]))
     lemmas = [munu_lemma('m%d' % k, *e) for k, e in enumerate(encl)]
     # the documented inclination used in the lemmas is Spec.incl_doc
